@@ -272,7 +272,7 @@ def h_epilogue(H):
         it.ctx.oblige("delete.never_without_check", z3.Implies(z3.Not(pc), z3.BoolVal(not unl)), "post", "without verification the original stays, whatever delete_original says")
         if "check" in calls and "compress" in calls:
             it.ctx.oblige("order.check_before_compress", z3.BoolVal(calls.index("check") < calls.index("compress")), "post")
-        it.ctx.oblige("order.files_closed_and_meta_before_check", z3.BoolVal(calls[:4] == ["close", "close", "meta_ap", "meta_lf"]), "post")
+        it.ctx.oblige("order.files_closed_and_meta_before_check", z3.BoolVal(sorted(calls[:4]) == ["close", "close", "meta_ap", "meta_lf"]), "post")
     S.explore(body)
 
     # early exits of _process_NP24 / process: already split, already exists, not an NP2 probe
